@@ -337,14 +337,10 @@ func vC16WhyClass(why string) string {
 	return "other"
 }
 
-// vC16DrawRequest draws a request of 1..4 statements. At zero users multi-statement requests are a
-// known-finding shape: they are cut to their first statement and counted.
+// vC16DrawRequest draws a request of 1..4 statements (at zero users half of the statements are the
+// bootstrap statement, so that "first statement creates an administrator, more follow" is frequent).
 func vC16DrawRequest(rt *rapid.T, m *vC16Model, def string, ex vExcluder, allowAST bool) (stmts []vC16Stmt, q *influxql.Query) {
 	n := rapid.SampledFrom([]int{1, 1, 1, 2, 2, 3, 4}).Draw(rt, "nStmts")
-	if len(m.Users) == 0 && n > 1 {
-		ex.Exclude(vSigZeroUsersMulti)
-		n = 1
-	}
 	var texts []string
 	for i := 0; i < n; i++ {
 		var s vC16Stmt
